@@ -361,12 +361,38 @@ def table_checks(pid: list[int], what: str, rowkeys=None, base: int = 0):
                       f"table {pid}: is_bifurcate = {got}, brute force = {exp}")
 
 
+def persistent_frame(pid: list[int], rowkeys, base: int):
+    import pandas as pd
+
+    n = len(pid)
+    order = list(range(n)) if not rowkeys else sorted(range(n), key=lambda i: (rowkeys[i % len(rowkeys)], i))
+    ids = np.array([i + base for i in order], dtype=np.int32)
+    pids = np.array([(-1 if pid[i] == -1 else pid[i] + base) for i in order], dtype=np.int32)
+    df = pd.DataFrame({"id": ids, "type": np.zeros(n, dtype=np.int32), "x": np.zeros(n), "y": np.zeros(n),
+                       "z": np.zeros(n), "r": np.ones(n), "pid": pids})
+    return df, order
+
+
+def diagnose_persistent(df, pid: list[int], what: str):
+    """The SAME DataFrame object is diagnosed again after it was edited in place: the answer must be about the
+    table as it is now (a labelling remembered on the frame from an earlier diagnosis would be stale)."""
+    from swcgeom.core import swc_utils
+
+    exp = table_model.connected(pid)
+    got = guarded("is_single_root", lambda: swc_utils.is_single_root(df))
+    if bool(got) != exp:
+        raise Bad("checker_wrong", "is_single_root",
+                  f"table {pid} ({what}, frame edited in place since its last diagnosis): is_single_root = {got}, connected = {exp}")
+
+
 def run_table(program: dict, world: World, out: dict):
     pid = list(program["init"])
     interesting = False
     rowkeys = program.get("rowkeys")
     base = int(program.get("idbase", 0))
     table_checks(pid, "init", rowkeys, base)
+    pdf, porder = persistent_frame(pid, rowkeys, base)
+    diagnose_persistent(pdf, pid, "init")
     for si, s in enumerate(program["steps"]):
         out["steps"] += 1
         k = s["k"]
@@ -379,6 +405,15 @@ def run_table(program: dict, world: World, out: dict):
         elif k == "set":
             i = s["i"] % n
             pid[i] = -1 if s["p"] is None else s["p"] % n
+            row = porder.index(i)
+            val = -1 if pid[i] == -1 else pid[i] + base
+            if si % 3 == 0:
+                pdf = pdf.copy()  # a copy of a diagnosed frame, then edited: whatever rides along must not go stale
+            if si % 2:
+                pdf.loc[pdf.index[row], "pid"] = val
+            else:
+                pdf.iloc[row, pdf.columns.get_loc("pid")] = val
+            world.probe("c18.persistent_frame_edited_in_place")
         else:
             if n <= 1:
                 world.log(si, k, "minimal")
@@ -396,6 +431,9 @@ def run_table(program: dict, world: World, out: dict):
             world.probe("c18.table_is_forest")
             interesting = True
         table_checks(pid, f"step {si}", rowkeys, base)
+        if k != "set":
+            pdf, porder = persistent_frame(pid, rowkeys, base)
+        diagnose_persistent(pdf, pid, f"step {si}")
         out["states"].append("t" + ",".join(str(x) for x in pid))
     out["nontrivial"] = out["steps"] >= 3 and interesting
 
@@ -508,6 +546,7 @@ def run_roots(program: dict, world: World, out: dict):
     topo = (frame["id"].to_numpy() - b, np.where(frame["pid"].to_numpy() == -1, -1, frame["pid"].to_numpy() - b))
     if guarded("has_cyclic", lambda: swc_utils.has_cyclic(topo)):
         raise Bad("checker_wrong", "has_cyclic", f"has_cyclic is True on an acyclic forest of {n} rows")
+    wrote = False
     for ri, rd in enumerate(program["reads"]):
         out["steps"] += 1
         fix, api = rd["fix"], rd["api"]
@@ -515,6 +554,9 @@ def run_roots(program: dict, world: World, out: dict):
         world.take_warnings()
         if api == "table":
             df = forest_frame(f)
+            if ri % 2 == 0:
+                # diagnose first (as read_swc does after a read), then repair, then diagnose the repaired table
+                guarded("is_single_root", lambda: swc_utils.is_single_root(df))
             before = df.copy(deep=True)
             if fix == "somas":
                 op = "mark_roots_as_somas"
@@ -531,11 +573,33 @@ def run_roots(program: dict, world: World, out: dict):
             if not df.equals(before):
                 raise Bad("input_modified", op, "the input frame was modified by the copying variant")
             judge_frame(f, frame_rows(res), op, repaired=repaired, id_shift=shift, relabelled=False)
+            again = guarded("is_single_root", lambda: swc_utils.is_single_root(res))
+            if bool(again) != (repaired or k == 1):
+                raise Bad("checker_wrong", "is_single_root",
+                          f"after {op} on a diagnosed forest of {k} roots: is_single_root(result) = {again}")
+            if repaired and ri % 3 == 0:
+                # the in-place flavour on a frame that was diagnosed before
+                df2 = forest_frame(f)
+                guarded("is_single_root", lambda: swc_utils.is_single_root(df2))
+                inplace = swc_utils.mark_roots_as_somas_ if fix == "somas" else swc_utils.link_roots_to_nearest_
+                guarded(op + "_", lambda: inplace(df2))
+                judge_frame(f, frame_rows(df2), op + "_", repaired=True, id_shift=b, relabelled=False)
+                if not guarded("is_single_root", lambda: swc_utils.is_single_root(df2)):
+                    raise Bad("checker_wrong", "is_single_root", f"after {op}_ (in place) on a diagnosed forest: still reported as not single-rooted")
             world.log(ri, op, "ok")
         else:
-            rel = f"forest{ri}.swc"
-            path = world.put(rel, text.encode())
+            # ONE file for all reads of the run, written once: the same unchanged file is read again and again
+            # with different repair modes, in the generated order
+            rel = "forest.swc"
+            if not wrote:
+                world.put(rel, text.encode())
+                wrote = True
+                world.read_plans.pop(rel, None)
+            else:
+                world.probe("c18.same_file_read_again")
+            path = world.path(rel)
             plan = StreamPlan.from_json(rd["stream"])
+            world.read_plans.pop(rel, None)
             if not plan.is_default():
                 world.read_plans[rel] = plan
             sort = bool(rd["sort"]) and fix is not False
